@@ -490,14 +490,14 @@ def storeClLoop (cl : List Nat) : Nat → Nat → Writer → Out Writer
 /-- `BrotliStoreHuffmanTreeOfHuffmanTreeToBitMask(num_codes, code_length_bitdepth, …)` -/
 def storeHuffmanTreeOfHuffmanTreeToBitMask (numCodes : Nat) (cl : List Nat) (w : Writer) :
     Out Writer := do
-  let codesToStore ← if numCodes > 1 then codesToStoreLoop cl 18 else .ok 18
+  let codesToStore ← (if numCodes > 1 then codesToStoreLoop cl 18 else Out.ok 18)
   let o0 ← getAt kStorageOrder 0
   let o1 ← getAt kStorageOrder 1
   let o2 ← getAt kStorageOrder 2
   let d0 ← getAt cl o0
   -- `&&` short-circuits: `cl[kStorageOrder[1]]` is read only if the first test holds
-  let d1 ← if d0 = 0 then getAt cl o1 else .ok 1
-  let d2 ← if d0 = 0 ∧ d1 = 0 then getAt cl o2 else .ok 1
+  let d1 ← (if d0 = 0 then getAt cl o1 else Out.ok 1)
+  let d2 ← (if d0 = 0 ∧ d1 = 0 then getAt cl o2 else Out.ok 1)
   let skipSome := if d0 = 0 ∧ d1 = 0 then (if d2 = 0 then 3 else 2) else 0
   let w ← writeBits 2 skipSome w
   storeClLoop cl (codesToStore - skipSome) skipSome w
